@@ -294,7 +294,7 @@ def same_runs(a, b, what=("beta", "pops", "evidence", "series", "final"), tol=0.
                 diffs.append(f"history.{k} differs (len {len(a.hist.get(k, []))} vs {len(b.hist.get(k, []))})")
     if "pops" in what:
         if len(a.pops) != len(b.pops):
-            diffs.append(f"{len(a.pops)} vs {len(b.pops)} stored populations")
+            diffs.append(f"stored population count {len(a.pops)} vs {len(b.pops)}")
         else:
             for t, (p, q) in enumerate(zip(a.pops, b.pops)):
                 for f in ("x", "ll", "lp", "lq"):
